@@ -413,7 +413,7 @@ pub fn run(ctx: &Ctx) {
     let idx: Vec<usize> = (0..g.len()).collect();
     ctx.note("grid_cases", json!(g.len()));
     ctx.enumerate("c04.grid", &idx, |i| json!({"index": i}), |i, stats| check_cmd(&g[*i], stats));
-    let cases = ctx.tier.pick(2500, 50000);
+    let cases = ctx.tier.pick(2500, 400000);
     ctx.search("c04.random", cases, 100, |tape, stats| {
         let c = random_cmd(tape);
         check_cmd(&c, stats)
